@@ -19,9 +19,11 @@
 (*   LookupOK    binary search = "last row with pc <= x" for every x from  *)
 (*               the first row's pc to beyond the last, and the result     *)
 (*               from the decoded table equals the result from the rows    *)
-(* Two configurations: scaled-down widths 2/3/3 exhaustively, and the real *)
-(* widths 4/5/6 on boundary deltas including 10^4 columns, 10^5 lines and  *)
-(* thousands of instructions.                                              *)
+(* Configurations: C16MC (widths 2/3/3, every first-row delta in -9..9 x   *)
+(* -9..9 x 0..10, two rows), C16MCLookup / C16MCq (2/3/3, 4 / 3 rows),     *)
+(* C16MCReal / C16MCRealq (the real widths 4/5/6, deltas around the bounds *)
+(* and their multiples, up to 1000), C16MCRealWide (4/5/6 with deltas of   *)
+(* 10^4 columns, 10^5 lines and 2*10^4 code bytes).                        *)
 (***************************************************************************)
 EXTENDS LineTab, TLC
 
